@@ -1,2 +1,66 @@
-(* PropsC04.v — C04: a successful Unpack returns only values that satisfy every declared validator. *)
-From Ucfg Require Import Base ParseInt Consts Field Tree PathOps Merge OTree F64 Conv Reify.
+(* PropsC04.v — C04: a successful Unpack returns only values that satisfy every declared
+   validator.  Statements only; proofs are in ProofsReify.v.
+
+   PARTIAL: proved are the soundness of a validator run (success means every validator of the
+   tag accepted, a failing validator is never masked), that a converted primitive is returned
+   only after its field's validators accepted it, that a field the configuration does not
+   mention is validated as it stands (pre-filled defaults), and the meaning of the individual
+   validators on integers and strings.  NOT proved: the statement for the whole result of
+   Unpack (every reachable field of every nesting); it is decided by the correspondence run,
+   where prop_holds re-validates the ENTIRE value the implementation returned with
+   rec_validate.  Not modelled: Validate() methods and InitDefaults (exercised by the CHooked
+   cases of the stream on the implementation only).  F37 is the known deviation. *)
+From Ucfg Require Import Base ParseInt Consts Field Tree PathOps Merge OTree F64 Conv Reify ProofsReify.
+Local Open Scope Z_scope.
+
+Theorem c04_validator_run_sound_partial : forall vo ts w,
+  run_validators vo ts w = Ok tt -> Forall (fun t => run_vtag vo t w = Ok tt) ts.
+Proof. exact run_validators_sound. Qed.
+Print Assumptions c04_validator_run_sound_partial.
+
+Theorem c04_failing_validator_rejects_partial : forall vo ts w t r p,
+  In t ts -> run_vtag vo t w = Err r p -> run_validators vo ts w <> Ok tt.
+Proof. exact failing_validator_rejects. Qed.
+Print Assumptions c04_failing_validator_rejects_partial.
+
+Theorem c04_converted_value_is_validated_partial : forall f o th vts val k g,
+  reify_primitive (S f) (o, th, vts) val (TPrim k) = Ok g -> is_nil (Some val) = false ->
+  exists c, g = GP c /\ conv (r_ft o) (vo_dur (r_vo o)) k val = Ok c /\
+            Forall (fun t => run_vtag (r_vo o) t (WPrim c) = Ok tt) vts.
+Proof. exact reify_primitive_validated. Qed.
+Print Assumptions c04_converted_value_is_validated_partial.
+
+Theorem c04_default_is_validated_partial : forall f o cfg goname ctag vtagtext ft fr x vr r vts,
+  struct_loop f o cfg ((goname, ctag, vtagtext, ft) :: fr) (x :: vr) = Ok r ->
+  untouched (goname, ctag, vtagtext, ft) = false ->
+  unmentioned o cfg (goname, ctag, vtagtext, ft) ->
+  parse_vtags vtagtext = Some vts ->
+  rec_validate (r_vo o) ft x vts = Ok tt.
+Proof. exact kept_field_is_validated. Qed.
+Print Assumptions c04_default_is_validated_partial.
+
+Theorem c04_positive_means_nonnegative : forall i, validate_positive (WPrim (CI i)) = Ok tt <-> 0 <= i.
+Proof. exact positive_int_means_nonneg. Qed.
+Print Assumptions c04_positive_means_nonnegative.
+
+Theorem c04_nonzero_int : forall i, validate_nonzero (WPrim (CI i)) = Ok tt <-> i <> 0.
+Proof. exact nonzero_int_means_nonzero. Qed.
+Print Assumptions c04_nonzero_int.
+
+Theorem c04_nonzero_string : forall s, validate_nonzero (WPrim (CS s)) = Ok tt <-> s <> "".
+Proof. exact nonzero_string_means_nonempty. Qed.
+Print Assumptions c04_nonzero_string.
+
+Theorem c04_min_bound : forall vo p b i,
+  parse_int0 p = Some b -> (validate_minmax vo true p (WPrim (CI i)) = Ok tt <-> b <= i).
+Proof. exact min_int_means_bound. Qed.
+Print Assumptions c04_min_bound.
+
+Theorem c04_max_bound : forall vo p b i,
+  parse_int0 p = Some b -> (validate_minmax vo false p (WPrim (CI i)) = Ok tt <-> i <= b).
+Proof. exact max_int_means_bound. Qed.
+Print Assumptions c04_max_bound.
+
+Theorem c04_required_rejects_nil_pointer : validate_required WPtrNil = Err ERequired "".
+Proof. exact required_rejects_nil_pointer. Qed.
+Print Assumptions c04_required_rejects_nil_pointer.
